@@ -33,6 +33,7 @@ type Writer struct {
 	buf    [MaxRawBytes]byte // Buffer to collect raw bytes to be encoded
 	cnts   []int             // Slice of counts (reused to avoid allocations)
 	err    error             // Persistent error
+	done   bool              // Has Close completed successfully?
 }
 
 // NewWriter creates a new Writer writing to the given writer.
@@ -96,7 +97,7 @@ func (mw *Writer) Write(buf []byte) (int, error) {
 // Close ends the meta stream and flushes all buffered data.
 // The desired FinalMode must be set prior to calling Close.
 func (mw *Writer) Close() error {
-	if mw.err == errClosed {
+	if mw.done {
 		return nil
 	}
 	if mw.err != nil {
@@ -107,7 +108,7 @@ func (mw *Writer) Close() error {
 	if err != nil {
 		mw.err = err
 	} else {
-		mw.err = errClosed
+		mw.err, mw.done = errClosed, true
 	}
 	mw.wr = nil // Release reference to underlying Writer
 	return err
